@@ -131,8 +131,10 @@ Padded(ws) == IF ws = <<>> THEN ws ELSE [ws EXCEPT ![Len(ws)] = @ \o "."]
 -----------------------------------------------------------------------------
 (* Input space                                                             *)
 WrapParams == {p \in [width : Widths, indent : Indents, offset : Offsets] : p.offset < p.width /\ p.indent < p.width}
-RstParams  == {p \in [width : RstWidths, indent : RstIndents, nl : {"none", "true", "false"}] :
-                  2 * p.indent + 3 < p.width}
+\* source_format "rst" is passed by exactly one kind of call site (the Returns: sections, width 72, indent 16)
+RstParams  == {p \in [width : RstWidths, indent : RstIndents, nl : {"none", "true", "false"}, fmt : {"commonmark", "rst"}] :
+                  /\ 2 * p.indent + 3 < p.width
+                  /\ (p.fmt = "rst" => p.width = 72 /\ p.indent = 16)}
 FixParams  == [ending : {"none", "one", "many", "spaces"}]          \* how the source ends
 EmbedParams == [origin : Origins]
 
@@ -261,10 +263,16 @@ WrapClass(in, p, o, v) ==
   ELSE IF "words" \in v THEN (IF FirstLineRewrapped(in, p) THEN "first-line-rewrap:" ELSE "words:") \o InputFeature(in)
   ELSE IF "width" \in v THEN "width:" \o InputFeature(in)
   ELSE "empty"
+\* the words differ in nothing but backslashes (added or removed)
+NoBS(as) == SelectSeq(as, LAMBDA a : a.k # "bs")
+OnlyBackslashesDiffer(in, o) == LET wi == Words(NoBS(Expand(in)))  wo == Words(NoBS(o.atoms)) IN wo = wi \/ wo = Padded(wi)
 RstClass(in, p, o, v) ==
   IF "raise" \in v THEN RaiseClass(in, o)
   ELSE IF "tail-quote" \in v THEN "tail-quote:" \o (IF UsesConverter(in) THEN "pandoc-route" ELSE "wrap-route")
   ELSE IF "words" \in v THEN
+         IF ~UsesConverter(in) /\ InputFeature(in) = "plain" /\ OnlyBackslashesDiffer(in, o)
+         THEN "backslashes:source-" \o p.fmt        \* (texts with leading blanks / tabs keep their re-wrap classes)
+         ELSE
          (IF UsesConverter(in) THEN "converter:words:"
           ELSE IF FirstLineRewrapped(in, [width |-> p.width - p.indent, offset |-> p.indent + 3]) THEN "first-line-rewrap:"
           ELSE "words:") \o InputFeature(in)
@@ -272,6 +280,9 @@ RstClass(in, p, o, v) ==
 FixClass(v) == IF "lines" \in v THEN "lines" ELSE IF "ast" \in v THEN "ast"
                ELSE IF "blank-added" \in v THEN "blank-added" ELSE IF "idempotent" \in v THEN "idempotent"
                ELSE IF "final-newline" \in v THEN "final-newline" ELSE "trailing-blanks"
+\* the comment of the response message is a message comment (classes are named after the kind of element); the
+\* binding tells the two message slots apart in the site part of the key
+OriginLabel(o) == IF o = "response" THEN "message" ELSE o
 EmbedClass(doc) ==
   LET da == Expand(doc) IN
   IF HasTripleQuote(da) THEN "triple-quote"
@@ -283,7 +294,7 @@ EmbedClass(doc) ==
 ClassOf(f, in, p, o, v) == CASE f = "wrap"  -> WrapClass(in, p, o, v)
                              [] f = "rst"   -> RstClass(in, p, o, v)
                              [] f = "fixws" -> FixClass(v)
-                             [] f = "embed" -> EmbedClass(in) \o ":" \o p.origin
+                             [] f = "embed" -> EmbedClass(in) \o ":" \o OriginLabel(p.origin)
 
 -----------------------------------------------------------------------------
 (* Reference observation generators (model checking of this module only)   *)
@@ -308,7 +319,9 @@ RefWrapAtoms(in, p) ==
 RefWrap(in, p) == [atoms |-> RefWrapAtoms(in, p),
                    raised |-> IF Mutant = "raise_on_blank" /\ in # <<>> /\ Words(Expand(in)) = <<>> THEN "indexerror" ELSE ""]
 RefRst(in, p) ==
-  LET base == RefWrapAtoms(in, [width |-> p.width - p.indent, offset |-> p.indent + 3, indent |-> p.indent])
+  LET base0 == RefWrapAtoms(in, [width |-> p.width - p.indent, offset |-> p.indent + 3, indent |-> p.indent])
+      base == IF Mutant = "double_backslash" /\ p.fmt = "rst"          \* escaping applied on the route that only re-wraps
+              THEN FlattenSeq([j \in 1..Len(base0) |-> IF base0[j].k = "bs" THEN <<BS, BS>> ELSE <<base0[j]>>]) ELSE base0
       multi == HasKind(base, "nl")
       withnl == IF p.nl = "true" \/ (p.nl = "none" /\ multi) THEN base \o <<NL>> \o Ind(p.indent) ELSE base
       padded == IF withnl # <<>> /\ Last(withnl).k = "q" /\ Mutant # "no_quote_pad" THEN Append(withnl, W(".")) ELSE withnl
@@ -339,7 +352,7 @@ RefFix(src) == LET o == RefFixLines(src) IN [lines |-> o, again |-> RefFixLines(
 \* escapes quotes and backslashes into a non-raw literal.  Scan is Python's rule for the end of a
 \* triple-quoted literal: a backslash takes the next character with it (in raw literals too), the literal ends
 \* with the third of three consecutive quotes.
-RawOrigin(o) == o \in {"message", "field", "enum", "value", "method"}      \* r""" sites; service docstrings are """
+RawOrigin(o) == o \in {"message", "response", "field", "enum", "value", "method"}      \* r""" sites; service docstrings are """
 SameLineClose(o) == o = "service"                                          \* closing quotes directly after the text
 Escape(as) == FlattenSeq([j \in 1..Len(as) |-> IF as[j].k \in {"q", "bs"} THEN <<BS, as[j]>> ELSE <<as[j]>>])
 Body(doc) == IF Mutant = "verbatim" THEN Expand(doc) ELSE Escape(Expand(doc))
@@ -388,6 +401,9 @@ ChooseInput == /\ Len(items) >= MinLen
 
 \* texts that take the converter path of rst() are run with the template defaults only: the converter is an
 \* external program (here a stand-in that copies its input) and every call costs several process starts
+\* (rst-format input is never sent down the converter route here: a real converter legitimately consumes the backslash
+\* escapes of rst input, so nothing can be demanded of it; on the wrap route the text must come back unchanged up to
+\* re-wrapping whatever the source format - that is the words clause of RstViolated, backslashes included)
 ConverterParams == {p \in RstParams : p.width = 72 /\ p.indent = 4}
 ParamsOf(f, in) == CASE f = "wrap" -> WrapParams
                      [] f = "rst" -> IF UsesConverter(in) THEN ConverterParams ELSE RstParams
